@@ -45,6 +45,11 @@ def shapes(tier, seed):
     bases = [X, ("sel", X, ("gt", sqlprogs.A, ("lit", "$k"))), ("chain", X, Y), ("join", X, Z, None),
              ("slice", ("sort", X, ((sqlprogs.A, True),)), 0, 2), ("dedup", X), ("proj", X, ("a", "b"))]
     others = [X, Y, Z, ("chain", Y, X), ("join", Y, Z, None), ("proj", Y, ("a",)), ("dedup", ("proj", Y, ("a", "b")))]
+    CH = ("chain", X, Y)
+    for node in (("proj", ("sort", CH, ((sqlprogs.B, True),)), ("a", "v")), ("sort", CH, ((("neg", sqlprogs.A), True),)),
+                 ("sort", CH, ((("add", sqlprogs.A, sqlprogs.B), False),)), ("slice", ("sort", CH, ((("neg", sqlprogs.A), True),)), 0, 2),
+                 ("dedup", ("proj", ("sort", CH, ((sqlprogs.B, True),)), ("a",))), ("proj", ("slice", ("sort", CH, ((sqlprogs.B, True),)), 0, 2), ("a",))):
+        add(node, {}, [])
     sl = ("slice", X, "$s1", "$e1")
     slp = {"$s1": [0, hi], "$e1": [0, hi]}
     for o in (Y, ("dedup", Y), ("slice", Y, "$s2", "$e2")):
